@@ -101,7 +101,7 @@ func realWatcherMain(cs *RWCase) int {
 		return 4
 	}
 
-	dir, err := os.MkdirTemp(filepath.Join(engine.VerifRoot, ".work"), "c19-rw-")
+	dir, err := scratchDir("c19-rw-")
 	if err != nil {
 		fmt.Fprintln(os.Stderr, err)
 
@@ -259,7 +259,7 @@ func runRealWatcher(c *engine.Ctx, cs *RWCase, dir string, replay bool) {
 	defer cancel()
 
 	cmd := exec.CommandContext(ctx, os.Args[0], "C19")
-	cmd.Env = append(os.Environ(), envRW+"="+string(raw))
+	cmd.Env = append(os.Environ(), envRW+"="+string(raw), envTmp+"="+dir)
 
 	var stdout, stderr bytes.Buffer
 
@@ -345,7 +345,7 @@ func replayRealWatcher(c *engine.Ctx, raw json.RawMessage) {
 		c.Tier = cs.Tier
 	}
 
-	dir, err := os.MkdirTemp(filepath.Join(engine.VerifRoot, ".work"), "c19-replay-")
+	dir, err := scratchDir("c19-replay-")
 	if err != nil {
 		c.Infra("%v", err)
 
